@@ -28,6 +28,8 @@ def run_impl(case):
     mm = dut.bus.memory_map
     lay = {tuple(i.path[0])[0]: (i.start, i.end) for i in mm.all_resources()}
     attach = rnd.choice(["direct", "decoder", "connect"])
+    if attach == "decoder" and lib.rng_for(case["seed"], case["idx"], 1424).random() < 0.4:
+        attach = "nested"          # a decoder behind another decoder, both windows at non-zero bases
     top = Module()
     base = 0
     if attach == "direct":
@@ -43,6 +45,21 @@ def run_impl(case):
         top.submodules.dec = dec
         top.submodules.dut = dut
         bus = dec.bus
+    elif attach == "nested":
+        inner = csr.Decoder(addr_width=mm.addr_width + 1, data_width=dw)
+        o1 = csr.Interface(addr_width=mm.addr_width, data_width=dw)
+        o1.memory_map = type(mm)(addr_width=mm.addr_width, data_width=dw)
+        inner.add(o1, name="other")
+        inner.add(dut.bus, name="mon")
+        outer = csr.Decoder(addr_width=mm.addr_width + 3, data_width=dw)
+        o2 = csr.Interface(addr_width=mm.addr_width + 1, data_width=dw)
+        o2.memory_map = type(mm)(addr_width=mm.addr_width + 1, data_width=dw)
+        outer.add(o2, name="first")
+        outer.add(inner.bus, name="inner")
+        top.submodules.outer = outer
+        top.submodules.inner = inner
+        top.submodules.dut = dut
+        bus = outer.bus
     else:
         intr = csr.Interface(addr_width=mm.addr_width, data_width=dw, path=("intr",))
         top.submodules.dut = dut
@@ -53,12 +70,23 @@ def run_impl(case):
                     "fails": [("C14", f"an initiator csr.Interface cannot be connected to EventMonitor.bus: {type(e).__name__}: {str(e)[:120]}", 0)],
                     "key": "connect-failed", "match": {"experiment": "connect"}}
         bus = intr
+    pre_fails = []
+    if attach in ("decoder", "nested"):
+        # software takes the addresses from the ROOT memory map: where it reports the two mask registers
+        local = {id(r): s_ for r, n_, (s_, e_) in mm.resources()}
+        bases = {i.start - local[id(i.resource)] for i in bus.memory_map.all_resources() if id(i.resource) in local}
+        if len(bases) != 1:
+            pre_fails.append(("C14", f"the root memory map reports the monitor's registers at inconsistent bases {sorted(bases)}", 0))
+        elif attach == "decoder" and bases != {base}:
+            pre_fails.append(("C14", f"the root memory map reports the monitor at base {sorted(bases)}, add() returned {base}", 0))
+        if bases:
+            base = min(bases)
     d = Signal(name="verif_dummy"); top.d.sync += d.eq(~d)
     sim = simutil.simulator(top, case)
     sim.add_clock(1e-6)
     lines = [f"case {n} {dw} {al} " + " ".join(m[0] for m in modes)]
     obs = [f"layout {mm.addr_width} {lay['enable'][0]}-{lay['enable'][1]} {lay['pending'][0]}-{lay['pending'][1]}"]
-    fails = []
+    fails = list(pre_fails)
     style = rnd.choice(["txn", "txn", "txn", "random"])
     stats = {"cycles": 0, "w1c_done": 0, "w1c_with_same_cycle_trigger": 0, "enable_readbacks": 0, "pending_multichunk_reads": 0,
              "events": n, attach: 1, style: 1}
